@@ -29,5 +29,5 @@ PROPS = {
     },
 }
 
-HOOK_COMMITS = ["4dbfdab"]
+HOOK_COMMITS = ["4dbfdab", "9c77502"]
 NOT_YET = {}
